@@ -1,12 +1,12 @@
 #!/bin/bash
-# tools/run_all.sh [tier] [seeds...]: run every registered check, report exit codes
+# tools/run_all.sh [tier] [seeds...]: run every registered check (or those named in ONLY="C01 C02"), report exit codes
 tier="${1:-quick}"; shift
 seeds="${@:-1}"
 bad=0
 cd "$(dirname "$0")/.."
 [ -d .deps ] || ./setup.sh >/dev/null 2>&1
 for seed in $seeds; do
-  for id in $(python3 -c "import json;print(' '.join(c['property_id'] for c in json.load(open('MANIFEST.json'))['checks']))"); do
+  for id in ${ONLY:-$(python3 -c "import json;print(' '.join(c['property_id'] for c in json.load(open('MANIFEST.json'))['checks']))")}; do
     start=$(date +%s)
     VERIF_SEED=$seed ./check $id --tier $tier > /tmp/run_all_$id.log 2>&1
     rc=$?
